@@ -15,6 +15,7 @@ EXPLANATION = (
     "enumeration of the project; (c) the analysis of an existing view walks the whole tree (no pruning of sub-directories), "
     "and a kept link is re-pointed whenever its resolved target differs from the job directory, without an existence "
     "precondition (dangling links must be repaired too); obsolete links are removed before new ones are made, deepest first."
+    ' (f) The link-building and view-updating loops carry nothing between jobs / links.'
 )
 UNDECIDED = "Incremental result == from-scratch result over histories, absence of empty directories and exact link targets are not decided."
 
